@@ -1,11 +1,12 @@
 //! C07 — suspending and resuming is transparent to the program.
 //!
-//! Oracle: the same program with an in-program synchronous stand-in for `order` (returns
-//! the response value directly / throws the error string) is the reference; the real
-//! program must produce the same result and log when the host answers immediately, answers
-//! with a promise it settles later, makes spurious step() calls, batches or permutes the
-//! settlement of independent host promises, collects between steps, or runs at GC
-//! threshold 1 — and the H1 hook must report no use of a reclaimed object in any of them.
+//! Oracle: the reference is the same program with an in-program stand-in for `order` that
+//! answers the n-th order the way the host policy does — returns the value / throws the
+//! error string directly where the host answers immediately, returns a promise resolved /
+//! rejected with it where the host answers with a promise it settles later. The real
+//! program must produce the same result and log when the host makes spurious step() calls,
+//! batches or permutes the settlement of independent host promises, collects between steps,
+//! or runs at GC threshold 1 — and the H1 hook must report no use of a reclaimed object.
 
 use crate::asynchost::{self, Policy};
 use crate::isolate::{self, Exit, Limits};
@@ -102,11 +103,13 @@ fn judge(r: &mut UnitResult, cs: &[Case], thorough: bool) {
     let lim = Limits { wall: std::time::Duration::from_secs(300), address_space: 3 << 30, stack: 0 };
     let exit = isolate::run(&lim, || {
         for (ci, c) in cs.iter().enumerate() {
-            let reference = asynchost::run(&asynchost::program(&c.body, false), &Policy::default());
-            isolate::emit(&format!("{}\u{2}ref\u{2}{}\u{2}{}\u{2}0\u{3}", ci, reference.outcome, reference.stale_events.join(",")));
+            // one reference per way of answering (immediately / through a promise, per order)
+            let mut refs: std::collections::BTreeMap<String, String> = Default::default();
             for (pn, p) in policies(c.concurrent, thorough) {
+                let key = asynchost::reference_key(&p);
+                let want = refs.entry(key).or_insert_with(|| asynchost::run(&asynchost::reference_program(&c.body, &p), &Policy::default()).outcome).clone();
                 let run = asynchost::run(&asynchost::program(&c.body, true), &p);
-                isolate::emit(&format!("{}\u{2}{}\u{2}{}\u{2}{}\u{2}{}\u{3}", ci, pn, run.outcome, run.stale_events.join(","), run.suspensions));
+                isolate::emit(&format!("{}\u{2}{}\u{2}{}\u{2}{}\u{2}{}\u{2}{}\u{3}", ci, pn, run.outcome, run.stale_events.join(","), run.suspensions, want));
             }
         }
         String::new()
@@ -114,30 +117,25 @@ fn judge(r: &mut UnitResult, cs: &[Case], thorough: bool) {
     let text = match exit {
         Exit::Ok(t) | Exit::Signal(_, t) | Exit::Status(_, t) | Exit::Timeout(t) => t,
     };
-    let mut refs: Vec<Option<String>> = vec![None; cs.len()];
     for rec in text.split('\u{3}') {
         let f: Vec<&str> = rec.split('\u{2}').collect();
-        if f.len() < 5 {
+        if f.len() < 6 {
             continue;
         }
         let Ok(ci) = f[0].parse::<usize>() else { continue };
-        if f[1] == "ref" {
-            refs[ci] = Some(f[2].to_string());
-            continue;
-        }
         r.evaluations += 1;
         let susp: u64 = f[4].parse().unwrap_or(0);
         if susp > 0 {
             r.nontrivial += 1;
         }
         r.stat("suspensions_observed", susp as i64);
-        let Some(want) = &refs[ci] else { continue };
+        let want = f[5];
         // race winners legitimately depend on the schedule
         let comparable = !cs[ci].id.contains("race-winner");
         if comparable && f[2] != want {
             r.violate(
                 format!("transparency|{}|{}|={}", cs[ci].id, f[1].split("+shuffle").next().unwrap_or(f[1]), hash_hex(f[2])),
-                format!("{} under host policy {}: {} — with the synchronous stand-in: {}", cs[ci].id, f[1], truncate(f[2], 220), truncate(want, 220)),
+                format!("{} under host policy {}: {} — the same program with an in-program order() answering the same way (value / promise): {}", cs[ci].id, f[1], truncate(f[2], 220), truncate(want, 220)),
                 json!({"id": cs[ci].id, "policy": f[1]}),
             );
         }
